@@ -225,7 +225,8 @@ def cl_facts(cl, f):
     for t in trees:
         for n in walk(t):
             if n.get('kind') == 'CXXConstructorDecl' and n.get('name') == 'Node' and \
-                    len([p for p in kids(n) if p.get('kind') == 'ParmVarDecl']) == 2:
+                    len([p for p in kids(n) if p.get('kind') == 'ParmVarDecl']) == 2 and \
+                    any(c.get('kind') == 'CompoundStmt' for c in kids(n)):
                 here = False
                 for c in kids(n):
                     if c.get('kind') == 'CXXCtorInitializer' and (c.get('anyInit') or {}).get('name') == 'callback':
